@@ -48,6 +48,9 @@ pub struct Env {
     /// the simulator through files instead)
     #[serde(default)]
     pub tty: bool,
+    /// resource limits of the process: (open files, stack bytes), set with prlimit(1)
+    #[serde(default)]
+    pub rlimits: Option<(u64, u64)>,
 }
 
 impl Env {
@@ -67,6 +70,7 @@ impl Env {
             uid: None,
             args: vec![],
             tty: false,
+            rlimits: None,
         }
     }
 }
@@ -151,6 +155,9 @@ pub fn run_child(ctx: &Ctx, env: &Env, sched: &Schedule, durable: &Durable) -> R
     let host_cpus = std::thread::available_parallelism().map(|x| x.get()).unwrap_or(1);
     if let Some((first, n)) = env.cpus.filter(|(f, n)| f + n <= host_cpus) {
         argv.extend(["taskset".to_string(), "-c".to_string(), format!("{}-{}", first, first + n - 1)]);
+    }
+    if let Some((nofile, stack)) = env.rlimits {
+        argv.extend(["prlimit".to_string(), format!("--nofile={nofile}:"), format!("--stack={stack}:")]);
     }
     if env.aslr_off {
         argv.extend(["setarch".to_string(), std::env::consts::ARCH.to_string(), "-R".to_string()]);
@@ -425,14 +432,26 @@ fn gen_env(r: &mut Rng, discovered: &[(String, Vec<String>)]) -> Env {
     if r.chance(1, 3) {
         // a manifest in the working directory (cargo starts rustc in the workspace root)
         let dir = cwd.clone().map(|d| format!("{d}/")).unwrap_or_default();
-        files.push((format!("{dir}Cargo.toml"), r.below(crate::envmodel::MANIFESTS.len())));
+        files.push((format!("{dir}Cargo.toml"), r.below(6)));
     }
     let manifest_dir = if r.chance(1, 3) {
-        files.push(("pkg/Cargo.toml".to_string(), r.below(crate::envmodel::MANIFESTS.len())));
+        files.push(("pkg/Cargo.toml".to_string(), r.below(6)));
         Some("pkg".to_string())
     } else {
         None
     };
+    // what else a build leaves lying around: lock file, toolchain file, cargo configuration (project and $HOME)
+    let n_manifests = 6;
+    for (rel, at_cwd, idx) in [("Cargo.lock", true, 6usize), ("rust-toolchain.toml", true, 7), (".cargo/config.toml", true, 8), (".cargo/config.toml", false, 8), (".cargo/credentials.toml", false, 5), (".rustup/settings.toml", false, 9), (".gitconfig", false, 5)] {
+        if r.chance(1, 6) {
+            let dir = if at_cwd { cwd.clone().map(|d| format!("{d}/")).unwrap_or_default() } else { String::new() };
+            let f = format!("{dir}{rel}");
+            if !files.iter().any(|(x, _): &(String, usize)| *x == f) {
+                files.push((f, idx));
+            }
+        }
+    }
+    let _ = n_manifests;
     Env {
         entropy_seed: if r.chance(1, 8) { 0 } else { r.next() },
         clock_base: if r.chance(1, 2) { Some(1_000_000_000 + r.next() % 1_000_000_000) } else { None },
@@ -488,6 +507,7 @@ fn gen_env(r: &mut Rng, discovered: &[(String, Vec<String>)]) -> Env {
             vec![]
         },
         tty: r.chance(1, 8),
+        rlimits: if r.chance(1, 6) { Some((*r.pick(&[64u64, 256, 1024]), *r.pick(&[8u64 << 20, 16 << 20, 64 << 20, 1 << 30]))) } else { None },
     }
 }
 
@@ -929,6 +949,8 @@ pub struct Stats {
     pub fault_requests_issued: u64,
     pub kill_requests_issued: u64,
     pub dim_tty: u64,
+    pub dim_rlimits: u64,
+    pub dim_config_files: u64,
     pub racy_sessions: u64,
     pub sut_threaded_sessions: u64,
     pub seam_threads_surplus: u64,
@@ -1023,6 +1045,8 @@ pub fn check_session(ctx: &Ctx, refs: &RefCache, s: &Session, st: &mut Stats, se
         st.dim_hostname_uid += (seg.env.hostname.is_some() || seg.env.uid.is_some()) as u64;
         st.dim_cwd_subdir += seg.env.cwd.is_some() as u64;
         st.dim_tty += seg.env.tty as u64;
+        st.dim_rlimits += seg.env.rlimits.is_some() as u64;
+        st.dim_config_files += seg.env.files.iter().any(|(f, _)| !f.ends_with("Cargo.toml")) as u64;
         st.long_processes += (seg.sched.requests.len() >= 1000) as u64;
         st.entropy_seeds.insert(seg.env.entropy_seed);
         let layout = fnv(
@@ -1286,6 +1310,9 @@ pub fn minimise(ctx: &Ctx, refs: &RefCache, d: &Divergence, s: &Session, seed: u
     e.tty = false;
     try_env(e, &mut env_min, &mut steps);
     let mut e = env_min.clone();
+    e.rlimits = None;
+    try_env(e, &mut env_min, &mut steps);
+    let mut e = env_min.clone();
     e.uid = None;
     try_env(e, &mut env_min, &mut steps);
     let mut e = env_min.clone();
@@ -1365,10 +1392,12 @@ fn describe(env: &Env, sched: &Schedule, ec: &str, oc: &str) -> String {
         "depends on the process's entropy (hash seeds)"
     } else if n == 1 && env.tty {
         "depends on whether the compiler's standard streams are a terminal"
+    } else if n == 1 && env.rlimits.is_some() {
+        "depends on the process's resource limits"
     } else if n == 1 && env.host.is_some() {
         "depends on the name of the host executable"
     } else if n == 1 && !env.files.is_empty() {
-        "depends on a file found on disk (the user's manifest)"
+        "depends on a file found on disk (the user's manifest, lock file, cargo / toolchain configuration)"
     } else if n == 1 && !env.junk.is_empty() {
         "depends on the process environment (environment variables / block size)"
     } else if n == 1 {
@@ -1518,6 +1547,8 @@ pub fn run_batch(ctx: Arc<Ctx>, corpus: Arc<Corpus>, refs: Arc<RefCache>, seed: 
         total.fault_requests_issued += s.fault_requests_issued;
         total.kill_requests_issued += s.kill_requests_issued;
         total.dim_tty += s.dim_tty;
+        total.dim_rlimits += s.dim_rlimits;
+        total.dim_config_files += s.dim_config_files;
         total.racy_sessions += s.racy_sessions;
         total.sut_threaded_sessions += s.sut_threaded_sessions;
         total.racy_evidence.extend(s.racy_evidence);
